@@ -277,5 +277,57 @@ example : (srun wfEx3 (sopsEx3.take 11)).inflight = [(0, .waitRecord)] ∧
     (srun wfEx3 (sopsEx3.take 11)).base.done 0 = false ∧
     ((srun wfEx3 (sopsEx3.take 11)).base.comp 2).finishCalled = true := by decide +kernel
 
+/-! ### a repeating consumer of a producer of an EARLIER stage
+
+`0` (stage 0) → repeating `1` (stage 1).  The exception of the main clause covers same-stage producers only:
+the scheduler pass that runs while stage 0 is current and `0` is running (staged in) does not launch `1`;
+it is launched once `0` has been recorded. -/
+
+def wfRepLater : Wf where
+  n := 2
+  lastStage := 1
+  cdef := fun c => match c with
+    | 0 => {}
+    | 1 => { stage := 1, preds := [0], isRepeat := true }
+    | _ => {}
+  order := [1, 0]
+
+example : (run wfRepLater [.sched, .sched, .sched]).log = [(0, [])] ∧
+    ((run wfRepLater [.sched, .sched, .sched]).comp 0).staged = true := by decide +kernel
+
+example : (run wfRepLater [.sched, .sched, .exit 0, .pm 0, .sched, .fin 0, .sched]).log =
+    [(0, []), (1, [(0, { state := some .finished, staged := true })])] := by decide +kernel
+
+/-! ### the external stage-completion hook (`SOp.complete k`, `Ctrl.stopStage`)
+
+`0` (stage 0, running) → `1` (stage 1).  The hook of stage 0 fires: `0` is asked to shut down, its task is
+still being killed.  The scheduler passes in that window do not launch `1` (its producer is not final and
+not recorded); once the kill has completed and the notification has been handled, `1` is shut down without
+running.  All `split_…` theorems above quantify over histories with `complete` operations. -/
+
+def sopsHook : List SOp :=
+  [.base .sched, .complete 0, .base .sched, .base .sched, .base (.exit 0), .base .sched, .base (.fin 0),
+   .base .next, .base .sched, .base (.fin 1)]
+
+example : ((srun wfEx3 [.base .sched, .complete 0]).base.comp 2).finishCalled = true ∧
+    ((srun wfEx3 [.base .sched, .complete 0]).base.comp 2).ctrl = none := by decide +kernel
+
+def wfHook : Wf where
+  n := 2
+  lastStage := 1
+  cdef := fun c => match c with
+    | 0 => {}
+    | 1 => { stage := 1, preds := [0] }
+    | _ => {}
+  order := [1, 0]
+
+example : (srun wfHook (sopsHook.take 4)).base.log = [(0, [])] ∧
+    ((srun wfHook (sopsHook.take 4)).base.comp 0).finishCalled = true ∧
+    ((srun wfHook (sopsHook.take 4)).base.comp 0).ctrl = none ∧
+    (srun wfHook (sopsHook.take 4)).base.done 0 = false := by decide +kernel
+
+example : (srun wfHook sopsHook).base.log = [(0, [])] ∧ ((srun wfHook sopsHook).base.comp 1).ran = false ∧
+    (List.range 2).map (fun c => ((srun wfHook sopsHook).base.comp c).ctrl) = [some .shutdown, some .shutdown] ∧
+    (srun wfHook sopsHook).base.cur = 1 ∧ (srun wfHook sopsHook).base.done 1 = true := by decide +kernel
 
 end St4sd.C01
